@@ -96,7 +96,7 @@ PROPS = {
                            harness="^Harness_C18_L2_(End|Begin)Blocker$", pkgname="opchild", native=["rt.go.tmpl", "opchild_keeper.go.tmpl"], native_pkg="./x/opchild/keeper", native_pkgname="keeper",
                            runner="keeper.VerifRtRun", runner_import='"github.com/initia-labs/OPinit/x/opchild/keeper"')],
                 level_text="Bounded symbolic model checking of the real Go code by self-composition: every message handler, block hook and genesis function is executed twice from the same symbolic pre-state with independent copies of the runtime-oracle symbols (iteration order of every Go map range, time.Now); z3 must show every observable (panic, error, response, ordered events, ordered validator updates, every store cell and bank ledger) equal for all inputs and all pairs of oracle choices within the bounds.",
-                bounds=["one step (any of the 12 L1 / 8 L2 messages, EndBlocker with or without a plan, BeginBlocker, Export/InitGenesis) from an arbitrary symbolic pre-state, executed twice", "Go maps of up to 3 entries: every pair of iteration orders", "validator stores 2 (quick) / 3 (thorough) entries; L1 iterated stores 1 / 2 entries; genesis shapes as in C16", "deposit with a hook transaction of two stub-routed messages (HookStep): every reading of the wall clock (time.Now/time.Since) is an independent oracle in each execution"],
+                bounds=["one step (any of the 12 L1 / 8 L2 messages, EndBlocker with or without a plan, BeginBlocker, Export/InitGenesis) from an arbitrary symbolic pre-state, executed twice", "Go maps of up to 3 entries: every pair of iteration orders", "validator stores 2 (quick) / 3 (thorough) entries; L1 iterated stores 1 / 2 entries; L1 genesis: 0..1 bridges (quick) / 0..2 bridges (thorough) with one entry per per-bridge collection (two batch infos); L2 genesis shapes as in C16", "deposit with a hook transaction of two stub-routed messages (HookStep): every reading of the wall clock (time.Now/time.Since) is an independent oracle in each execution"],
                 outside=["byte-level store encoding (codecs are assumed deterministic)", "goroutines / select (none on the explored paths; meeting one is reported INCONCLUSIVE)", "the oracle-update message (decoded by connect's codecs; C15 covers its gating)", "dependence on prior process history other than through the listed oracles"],
                 assumptions=COMMON_ASSUME + ["other modules reached through keepers/routers/hooks are deterministic: the same call sequence gets the same answers in both executions", "the modelled wall clock advances across calls into other components (stub message handlers) only: with no such call since the last time.Now, time.Since is below 1 ms (the replay realises elapsed time by sleeping in the stub handler, at most 1.5 s)"]),
     "C17": dict(runs=[dict(pkg="./x/ophost/types", overlay="harness/C17", pkgname="types", harness="^Harness_C17_", native=["rt.go.tmpl", "types_native.go.tmpl"])],
